@@ -198,7 +198,8 @@ class Gen(object):
             i = self.t('NUMBER', v)
             return En('IntegerNode', [v], i, i)
         if k < 0.26:
-            v = r.choice(['1.5', '0.25', '.5', '3.', '2.e3', '1e5', '6.02f', '1.0L', '7e-2', '9.E+1'])
+            v = r.choice(['1.5', '0.25', '.5', '3.', '2.e3', '1e5', '6.02f', '1.0L', '7e-2', '9.E+1', '2.5f', '1e3L', '7.f',
+                          '.5F', '4.l', '12E-3f'])
             i = self.t('FRACTION', v)
             return En('RealNode', [v], i, i)
         if k < 0.36:
@@ -786,7 +787,13 @@ def layout(rng, prog, style='wild', spell=None):
         lex = tk.lexeme if spell is None or spell[i] is None else spell[i]
         if tk.role == 'end' and (spell is None or spell[i] is None):
             word = lex.split(' ', 1)
-            lex = word[0] + (rng.choice(END_WS) if style == 'wild' else ' ') + word[1]
+            if style == 'wild':
+                ws = rng.choice(END_WS)
+            elif style == 'plain' and rng.random() < 0.3:
+                ws = rng.choice(['  ', '   ', ' \t', '\n', ' \n ', '\t\t'])       # `end  if`: repeated separators
+            else:
+                ws = ' '
+            lex = word[0] + ws + word[1]
             if '\n' in lex:
                 pl.stats['end-split'] = pl.stats.get('end-split', 0) + 1
         if prev is not None and not tk.glue:
@@ -936,7 +943,7 @@ def respell(rng, prog, mode, lexemes=None):
 # --------------------------------------------------------------------------------------- totality streams
 
 ALPHABET = (list(' \t\n\r;=.():,*[]?<>!+-|/%&^\'"_') + list('abcdefENDifWHILEnot019') +
-            ['::', '->', '==', '/*', '*/', '//', 'end ', 'if', '\x0b', '\x0c', '\x00', '\x1c', '\x85', '\xa0', ' ',
+            ['::', '->', '==', '/*', '*/', '//', 'end ', 'if', '%d', '%s', '%(x)s', '%%', '{0}', '{}', '%5.2f', '%r', '\x0b', '\x0c', '\x00', '\x1c', '\x85', '\xa0', ' ',
              '　', 'é', 'ß', 'Ω', '٣', '５', '\U0001d7d8', '@', '$', '#', '`', '~', '\\', '{', '}',
              '\ud800', '\U0010ffff'])
 # the lexer model's alphabet leaves out lone surrogates only because they cannot be sent over the UTF-8 pipe
@@ -985,11 +992,14 @@ def random_tokens(rng, maxlen=40):
     return ''.join(out)
 
 
+FORMAT_LIKE = ['%d', '%s', '%', '%%', '%(x)s', '{0}', '{}', '%5.2f', '% d', '%r %s', 'x %d', '%s;', '(%s)', '"%d"', "'%s'"]
+
+
 def mutate(rng, prog, pl):
     """single-edit mutation of a valid program: returns (kind, text)"""
     n = len(prog.toks)
     kind = rng.choice(['delete', 'duplicate', 'swap', 'truncate', 'unterminated-string', 'unterminated-comment',
-                       'unterminated-phrase', 'insert-char', 'delete-char'])
+                       'unterminated-phrase', 'insert-char', 'delete-char', 'insert-format', 'replace-format'])
     text = pl.text
     if n == 0:
         return 'none', text
@@ -1013,6 +1023,12 @@ def mutate(rng, prog, pl):
         return kind, text[:pl.start[i]] + '/* c ' + text[pl.start[i]:]
     if kind == 'unterminated-phrase':
         return kind, text[:pl.start[i]] + "'ph " + text[pl.start[i]:]
+    if kind in ('insert-format', 'replace-format'):
+        # format-like text where a token is expected: the error message of the parser must cope with it
+        f = rng.choice(FORMAT_LIKE)
+        if kind == 'insert-format':
+            return kind, text[:pl.start[i]] + f + ' ' + text[pl.start[i]:]
+        return kind, text[:pl.start[i]] + f + text[pl.stop[i]:]
     if kind == 'insert-char':
         k = rng.randint(0, len(text))
         return kind, text[:k] + rng.choice(ALPHABET) + text[k:]
@@ -1258,11 +1274,33 @@ class ExecGen(Gen):
         self.idt(r.choice(EXEC_CLASSES[cls]))
         self.pn(r.choice(['LESSTHAN', 'GT', 'DOUBLEEQUAL', 'NOTEQUAL', 'GE']))
         self.num(r.choice([0, 1, 2, 6, 20, 100]))
-        if r.random() < 0.3:
+        k = r.random()
+        if k < 0.3:
             self.kw(r.choice(['and', 'or']))
             self.kw(r.choice(['true', 'false', 'not']))
             if self.p.toks[-1].lexeme == 'not':
                 self.kw(r.choice(['true', 'false']))
+        elif k < 0.55 and (self.insts or self.sets):
+            # empty / not_empty / cardinality / not inside the where clause of a select
+            self.kw(r.choice(['and', 'or']))
+            h = r.choice(self.insts + self.sets)
+            w = r.random()
+            if w < 0.4:
+                self.kw(r.choice(['not_empty', 'empty']))
+                self.idt(h[0])
+            elif w < 0.7 and self.sets:
+                self.pn('LPAREN')
+                self.kw('cardinality')
+                self.idt(r.choice(self.sets)[0])
+                self.pn(r.choice(['GE', 'LESSTHAN']))
+                self.num(r.choice([0, 1, 2]))
+                self.pn('RPAREN')
+            else:
+                self.kw('not')
+                self.pn('LPAREN')
+                self.kw(r.choice(['not_empty', 'empty']))
+                self.idt(h[0])
+                self.pn('RPAREN')
         self.pn('RPAREN')
 
     # ---- statements (each emits its ';')
